@@ -1082,6 +1082,20 @@ func genCase(rt *rapid.T, small bool) *Case {
 			c.IDs = append(c.IDs, fmt.Sprintf("dyn#%d", i))
 			c.FromText = append(c.FromText, i%2 == 0)
 		}
+		// scope lists of every length 1..8 that name an action group of the fixture schema (view and edit are members of
+		// grp), parsed from text: whatever the validator and the authorizer derive from such a list (member actions,
+		// environments) must not be written into the shared policy
+		for n := 1; n <= 8; n++ {
+			p := ir.NewPolicy(n%2 == 0)
+			acts := []ir.Value{ir.Ent(gen.ActionType, "grp")}
+			for k := 1; k < n; k++ {
+				acts = append(acts, ir.Ent(gen.ActionType, fmt.Sprintf("other%d", k)))
+			}
+			p.Action = ir.ScopeInSet(acts)
+			c.Policies = append(c.Policies, p)
+			c.IDs = append(c.IDs, fmt.Sprintf("actlist#%d", n))
+			c.FromText = append(c.FromText, true)
+		}
 	}
 	ents := func(label string, action bool) []ir.Value {
 		n := rapid.IntRange(1, 3).Draw(rt, label+"n")
